@@ -33,7 +33,7 @@ export function* generate({ tier, seed }) {
     yield one(src, rng.bool(0.15) ? 'tsx' : 'jsx', [randomOptions(rng)], `fuzz|${hashStr(src.slice(0, 80)) % 100000}`);
   }
   const keep = tier === 'quick' ? 0.2 : 0.6;
-  for (const g of C06.generate({ tier, seed })) { if (rng() < keep) yield { gid: `C09-${n++}`, src: g.src, syntax: 'jsx', feature: `ctx|${g.feature}`, want: WANT, variants: g.variants.slice(0, 1) }; }
+  for (const g of C06.generate({ tier, seed })) { if (rng() < keep) yield { gid: `C09-${n++}`, src: g.src, syntax: g.syntax || 'jsx', feature: `ctx|${g.feature}`, want: WANT, variants: g.variants.slice(0, 1) }; }
   for (const g of C10.generate({ tier, seed })) { if (rng() < keep * 0.3) { const c = g.variants.find((v) => v.vid === 'composed'); yield { gid: `C09-${n++}`, src: c.src, syntax: 'jsx', feature: `compose|${g.feature}`, want: WANT, variants: [{ vid: 'v0', options: c.options }] }; } }
   for (const g of C14.generate({ tier, seed })) { if (g.gid.includes('-iso-') && rng() < keep * 2) yield { gid: `C09-${n++}`, src: g.src, syntax: g.syntax, feature: `typed|${g.feature}`, want: WANT, variants: g.variants.slice(0, 2) }; }
   for (const [nm, mod] of [['C20', C20], ['C18', C18]]) for (const g of mod.generate({ tier, seed })) { if (rng() < keep * 1.5) yield { gid: `C09-${n++}`, src: g.src, syntax: 'tsx', feature: `dc|${nm}|${g.feature}`, want: WANT, variants: g.variants.slice(0, 1) }; }
